@@ -225,3 +225,30 @@ Definition rows_eqb := list_eqb zlist_eqb.
 Definition mask_eqb := list_eqb (list_eqb Bool.eqb).
 Definition batch_eqb (a b : list (list Z) * list (list bool)) : bool :=
   rows_eqb (fst a) (fst b) && mask_eqb (snd a) (snd b).
+
+Definition dec_ok (e : obs (list Z)) (d : obs position) : bool :=
+  match e with
+  | ObsOk l => obs_eqb position_eqb (decode_pos l) d
+  | _ => true   (* nothing was decoded *)
+  end.
+(* one position: encode with and without the sentinel, decode of both encoded
+   tensors, encode of the colour-swapped twin (built by the harness) *)
+Definition pos_case : Type :=
+  position * obs (list Z) * obs (list Z) * obs position * obs position * bool * obs (list Z).
+Definition check_position (c : pos_case) : bool :=
+  let '(p, et, ef, dt, df, ss, es) := c in
+  obs_eqb zlist_eqb (encode true p) et && obs_eqb zlist_eqb (encode false p) ef &&
+  dec_ok et dt && dec_ok ef df &&
+  obs_eqb zlist_eqb (encode ss (swap_colours p)) es.
+Definition view_position (c : pos_case) :=
+  let '(p, et, ef, dt, df, ss, es) := c in
+  (encode true p, encode false p,
+   match encode true p with Some l => decode_pos l | None => None end,
+   encode ss (swap_colours p)).
+Definition check_decode (c : list Z * obs position) : bool :=
+  obs_eqb position_eqb (decode_pos (fst c)) (snd c).
+Definition batch_case : Type := bool * list position * obs (list (list Z) * list (list bool)).
+Definition check_batch (c : batch_case) : bool :=
+  let '(s, ps, o) := c in obs_eqb batch_eqb (encode_batch_with s ps) o.
+Definition view_batch (c : batch_case) :=
+  let '(s, ps, o) := c in encode_batch_with s ps.
